@@ -313,6 +313,20 @@ def _r7(a, b):
     return atomic and b == '%s = %s %s %s' % (x, x, op, e)
 
 
+def _rmc(a, b):
+    """RMC: `X.iter().map(|v| E).collect()` over a slice X -> a counted loop that pushes E for every element in order:
+    `{ let mut __o: TYPE = Vec::new(); let __n = X.len(); let mut __k: usize = 0; while __k < __n invariant .. decreases __n - __k
+       { let v = &X[__k]; __o.push(E); __k = __k + 1; } __o }` (E verbatim; the invariant / decreases clauses are ghost)."""
+    m = re.fullmatch(r'(\w+)\.iter\(\)\.map\(\|(\w+)\|(.+)\)\.collect\(\)', norm_ws(a))
+    if not m:
+        return False
+    x, v, e = m.group(1), m.group(2), m.group(3)
+    esc = lambda t: re.escape(norm_ws(t))
+    pat = (esc('{ let mut __o: Vec<') + r'[^;=]+' + esc('> = Vec::new(); let __n = %s.len(); let mut __k: usize = 0; while __k < __n invariant' % x)
+           + r' ?.+?,? ?' + esc('decreases __n - __k') + r',?' + esc('{ let %s = &%s[__k]; __o.push(%s); __k = __k + 1; } __o }' % (v, x, e)))
+    return re.fullmatch(pat, norm_ws(b)) is not None
+
+
 REWRITE_RULES = {
     # rule id -> validator(from, to) -> bool
     'W': lambda a, b: re.fullmatch(r'(.+)\.len\(\)', a) and b == 'range_len(&%s)' % re.fullmatch(r'(.+)\.len\(\)', a).group(1),
@@ -328,6 +342,7 @@ REWRITE_RULES = {
         or re.search(r'\{\s*proof\s*\{[^{}]*\}\s*' + re.escape(norm_ws(m.group(2))) + r'\s*\}$', norm_ws(b)) is not None))(re.fullmatch(r'\|\s*(\w+)\s*\|\s*(.+)', a, re.S)),
     'S1': lambda a, b: True,   # monomorphisation of a generic parameter / iterator type; logged
     'S2': lambda a, b: True,   # by-value `mut self` modelled as `&mut self` (Verus has no `mut self`): the final move out of self is a take; logged
+    'RMC': lambda a, b: _rmc(a, b),
     'W2': lambda a, b: True,   # call routed through a prelude wrapper whose body is that same call; logged
 }
 
